@@ -220,3 +220,10 @@ from .. import kw as _kw  # noqa: E402
 _KW = _kw.KwSub("allocation")
 SUBCHECKS["keywords"] = _KW
 REPLAY["keywords"] = _KW.replay
+
+# results must not depend on which library calls were made earlier in the process (see mc/order.py)
+from .. import order as _order  # noqa: E402
+
+_ORDER = _order.OrderSub("C13", "allocation", None, nchunks=8)
+SUBCHECKS["order"] = _ORDER
+REPLAY["order"] = _ORDER.replay
